@@ -186,21 +186,7 @@ def run(ctx, R, tier):
     ra = reader_fn(ST)
     rb = reader_fn(SS)
     if R.check(ra is not None and rb is not None, 'B.C09.sib-cmd', 'anchor', 'read_commands siblings not found'):
-        def seq(b):
-            from .c07 import origin_pl, last_field
-            out = []
-            for bb, t in b.calls():
-                cp = callee_path(t) or ''
-                if cp == 'command::CommandReader::<T>::read':
-                    lf = last_field(origin_pl(b, t['args'][0]) or {})
-                    out.append((bb, lf[0] if lf else '?'))
-                elif cp == 'parameter::Parameter::<T>::read_command':
-                    lf = last_field(origin_pl(b, t['args'][1]) or {})
-                    out.append((bb, lf[0] if lf else '?'))
-            order = first_order(b, [x for x, _ in out])
-            lab = dict(out)
-            return [lab[x] for x in order]
-        qa, qb = seq(ra), seq(rb)
+        qa, qb = reader_sequence(ra), reader_sequence(rb)
         common = [x for x in qa if x in qb]
         R.check(common == qb and qb == ['set_volume', 'set_playback_rate', 'set_panning', 'pause', 'resume', 'stop'], 'B.C09.sib-cmd', 'order',
                 'command order differs: static %s, streaming %s' % (qa, qb), detail={'static': qa, 'streaming': qb})
@@ -215,6 +201,23 @@ def run(ctx, R, tier):
                     rc.append(bb)
             R.check(len(st) == 1 and len(rc) == 1 and order_ok(ob_, st, rc), 'B.C09.sib-on-start', tag,
                     '%s::on_start_processing does not publish the position before reading commands' % owner, detail='position.store ≺ read_commands')
+
+
+def reader_sequence(b):
+    """The command readers a function polls, by field name, in control-flow order."""
+    from .c07 import origin_pl, last_field
+    out = []
+    for bb, t in b.calls():
+        cp = callee_path(t) or ''
+        if cp == 'command::CommandReader::<T>::read':
+            lf = last_field(origin_pl(b, t['args'][0]) or {})
+            out.append((bb, lf[0] if lf else '?'))
+        elif cp == 'parameter::Parameter::<T>::read_command':
+            lf = last_field(origin_pl(b, t['args'][1]) or {})
+            out.append((bb, lf[0] if lf else '?'))
+    order = first_order(b, [x for x, _ in out])
+    lab = dict(out)
+    return [lab[x] for x in order]
 
 
 def shape(d):
